@@ -84,19 +84,22 @@ CHECKS = {
              "Python line-boundary character other than LF in texts (the control-file domain, as C08 words it).",
         technique=T.format(how="inverse laws + composition with the deb822 round-trip theorems")),
     "C05": dict(
-        text="Theorems (Props/C05.v, 14, all Closed under the global context): on every valid document and every op list "
+        text="Theorems (Props/C05.v, 22, all Closed under the global context): on every valid document and every op list "
              "(set / set_field_to_simple_value / set_field_from_raw_string / delete), each accepted operation is byte-local: "
              "replacing keeps everything before the value (own comment and name as spelled) and after the field; a new field "
              "goes after the paragraph's last field on lines of its own with at most one supplied LF that can only be non-empty "
              "at the very end of the document; delete removes exactly the field's lines; rejected operations change nothing; "
-             "validity, paragraph count/order and free text are preserved over ANY history; the duplicate-fields index "
-             "invariant is preserved.  Read-back is proved on the edited object and per paragraph re-read (_partial: the "
-             "document-level re-parse of the whole dump is not proved; it is checked on every case by a fresh parse in holds).",
+             "validity, paragraph count/order and free text are preserved over ANY history.  parse_dump_abs: for every "
+             "well-formed canonical document the REAL parser model of C01 (tokenizer + six stages) run on the dump gives the "
+             "document back; hence after any accepted set/setter/delete — and after any history — a FRESH PARSE of the dump "
+             "shows the new value under every case spelling, the original spelling of the name, unchanged values and order "
+             "elsewhere, and exactly the non-emptied paragraphs in order.",
         design="§4 C05",
         note=COMMON_NOTE + "Modelled not verified: tokenizer leaves (match_field_line, is_ws_line, format_comment) compared per "
-             "run; operations on paragraphs that still contain repeated names are compared, only their index invariant is "
-             "proved.  Theorem domain: paragraphs without repeated field names.",
-        technique=T.format(how="byte-level locality by induction over documents and op lists")),
+             "run.  doc_canon (the item structure a parse produces: no error items, no empty paragraph, canonical blank/comment "
+             "runs) is a boolean hypothesis, evaluated by agree on every parsed document.  Operations on paragraphs that still "
+             "contain repeated names: index invariant + re-parse (norm_doc) proved, field-level locality compared only.",
+        technique=T.format(how="byte-level locality by induction over documents and op lists; printer/parser inverse through the C01 parser model")),
     "C09": dict(
         text="Theorems (Props/C09.v, 11, all Closed under the global context): on a pointer-level model (heap of linked-list nodes, "
              "head/tail/size, OrderedSet table, Deb822Dict) the representation invariant holds after ANY history from empty, "
@@ -110,18 +113,21 @@ CHECKS = {
              "parse_text text = items (C02's subject); multi-line values through dump/parse are compared per case.",
         technique=T.format(how="refinement of a heap-level doubly linked list to an association list, induction over histories")),
     "C10": dict(
-        text="Theorems (Props/C10.v, 13, all Closed under the global context; one _partial): over any history of order_first/last/"
+        text="Theorems (Props/C10.v, 15, all Closed under the global context): over any history of order_first/last/"
              "before/after, sort_fields, indexed and unindexed set/delete, insert/append, the name index equals the filtered "
              "document order in both paragraph classes, so (name,i) is the i-th occurrence in document order; dump = the "
              "reference list's dump and every step is a permitted list outcome; moves and sort are permutations of whole "
              "fields, sort is stable and ordered by lower-cased name; after any exception the fields are unchanged up to the one "
-             "supplied final LF, which is exactly one LF at the paragraph's end and only when missing.  "
-             "insert_append_no_merge is _partial: proved at the item level; that a fresh real parse shows one more paragraph is "
-             "checked on every case in holds, not proved.",
+             "supplied final LF, which is exactly one LF at the paragraph's end and only when missing; and "
+             "insert_append_no_merge in full: a FRESH PARSE (C01's parser model) of the dump after append/insert has the "
+             "paragraphs of the document plus one more equal to the inserted one at the requested position (repeated names "
+             "allowed).",
         design="§4 C10",
         note=COMMON_NOTE + "Modelled not verified: OrderedSet/LinkedList at list level here (pointer level is C09's), the text that "
-             "p[k]=v builds (C05's), negative insert indices compared only.  Theorems assume ops address existing paragraphs.",
-        technique=T.format(how="invariant + refinement to a list-of-fields spec, induction over histories")),
+             "p[k]=v builds (C05's), negative insert indices compared only.  Theorems assume ops address existing paragraphs; "
+             "no_merge assumes tail_ok (free text at the very end of the document ends with a newline) and a non-empty "
+             "inserted paragraph.",
+        technique=T.format(how="invariant + refinement to a list-of-fields spec, induction over histories; re-parse via parse_dump_abs")),
     "C11": dict(
         text="Theorems (Props/C11.v, 11, all Closed under the global context): for every value text in the domain and both "
              "interpretations list(view) = split_spec (comment lines dropped, whole text split on the separator, trimmed, empties "
